@@ -113,7 +113,7 @@ class G:
         if c == 9:
             return f"{r.choice(['', 'not '])}{r.choice(['debug', 'edit', 'variation'])}"
         if c == 10:
-            return f"{r.choice(['BranchSum', 'BranchExecuteSub', 'Branch'])}({k}, 2)"
+            return r.choice([f"BranchSum({k}, 2, 3)", f"BranchExecuteSub({k})", f"Branch({k}, 2)"])
         return f"{v} != {k}"
 
     def swhdr(self, params=None) -> str:
